@@ -43,27 +43,29 @@ const (
 
 	cookieName = "Portmaster-API-Token" // documented name of the session cookie (Set-Cookie of the server)
 	testHost   = "api.verif.test:817"
+
+	noiseOptionKey = "verif/noise"
 )
 
 // obs is what the harness observed of one request.
 type obs struct {
-	Invoked    int     `json:"invoked"`               // how often a probe body ran
-	Kind       string  `json:"kind,omitempty"`        // which probe
-	Tok        *mtoken `json:"tok,omitempty"`         // AuthToken the probe saw via GetAPIRequest
-	TokNil     bool    `json:"tok_nil,omitempty"`     // probe ran without an AuthToken
-	SeenMethod string  `json:"seen_method,omitempty"` // r.Method inside the probe
-	AuthCalled int     `json:"auth_called"`           // how often the authenticator ran
-	AuthFirst  bool    `json:"-"`                     // authenticator ran before the probe
-	Status     int     `json:"status"`                // status code written (0 = none)
-	Wrote      bool    `json:"wrote"`                 // WriteHeader/Write was called at all
-	BodyLen    int     `json:"body_len"`
-	Body       string  `json:"body,omitempty"` // first bytes
-	SetSession string  `json:"set_session,omitempty"`
-	WWWAuth    string  `json:"www_auth,omitempty"`
-	Escaped    string  `json:"escaped_panic,omitempty"` // a panic escaped ServeHTTP
-	Panics     []panicInfo `json:"panics,omitempty"`    // panics reported by the module system while the request ran
-	Err        string  `json:"err,omitempty"`           // bridge / wire error
-	WireRaw    string  `json:"wire_raw,omitempty"`
+	Invoked    int         `json:"invoked"`               // how often a probe body ran
+	Kind       string      `json:"kind,omitempty"`        // which probe
+	Tok        *mtoken     `json:"tok,omitempty"`         // AuthToken the probe saw via GetAPIRequest
+	TokNil     bool        `json:"tok_nil,omitempty"`     // probe ran without an AuthToken
+	TokUnseen  bool        `json:"tok_unseen,omitempty"`  // the handler ran but had no way to report its token
+	SeenMethod string      `json:"seen_method,omitempty"` // r.Method inside the probe
+	AuthCalled int         `json:"auth_called"`           // how often the authenticator ran
+	Status     int         `json:"status"`                // status code written (0 = none)
+	Wrote      bool        `json:"wrote"`                 // WriteHeader/Write was called at all
+	BodyLen    int         `json:"body_len"`
+	Body       string      `json:"body,omitempty"` // first bytes
+	SetSession string      `json:"set_session,omitempty"`
+	WWWAuth    string      `json:"www_auth,omitempty"`
+	Escaped    string      `json:"escaped_panic,omitempty"` // a panic escaped ServeHTTP
+	Panics     []panicInfo `json:"panics,omitempty"`        // panics reported by the module system while the request ran
+	Err        string      `json:"err,omitempty"`           // bridge / wire error
+	WireRaw    string      `json:"wire_raw,omitempty"`
 }
 
 type panicInfo struct {
@@ -83,10 +85,12 @@ type world struct {
 	cur   *obs
 	byRid map[string]*obs
 
-	keyEvMu sync.Mutex
-	keyEvs  []string // snapshot of the configured key list at each api.keys.updated
-	keySig  chan struct{}
-	keysGet config.StringArrayOption
+	keyEvMu  sync.Mutex
+	keyEvs   []string                               // snapshot of the configured key list at each api.keys.updated
+	keyDirty []bool                                 // ... and whether that list held an already expired key (portbase then schedules a clean-up)
+	onKeyEv  func(idx int, snap string, dirty bool) // optional: runs inside the hook (an admin's change arriving at that moment)
+	keySig   chan struct{}
+	keysGet  config.StringArrayOption
 
 	panics chan *modules.ModuleError
 	dbi    *database.Interface
@@ -146,6 +150,7 @@ func startWorld(dir string, b *vlib.Batch, logLevel string) (*world, error) {
 	if err := dataroot.Initialize(root, 0o755); err != nil {
 		return nil, fmt.Errorf("dataroot: %w", err)
 	}
+	w.keysGet = config.GetAsStringArray(api.CfgAPIKeys, []string{})
 	w.addr = freePort()
 	api.SetDefaultAPIListenAddress(w.addr)
 	if err := api.SetAuthenticator(w.authenticator); err != nil {
@@ -154,12 +159,21 @@ func startWorld(dir string, b *vlib.Batch, logLevel string) (*world, error) {
 	w.registerProbes()
 	vhook.Set("api.keys.updated", func(point, subject string) {
 		snap := ""
+		dirty := false
 		if w.keysGet != nil {
-			snap = strings.Join(w.keysGet(), "\n")
+			list := w.keysGet()
+			snap = strings.Join(list, "\n")
+			dirty = listHasExpired(list, time.Now())
 		}
 		w.keyEvMu.Lock()
 		w.keyEvs = append(w.keyEvs, snap)
+		w.keyDirty = append(w.keyDirty, dirty)
+		idx := len(w.keyEvs) - 1
+		cb := w.onKeyEv
 		w.keyEvMu.Unlock()
+		if cb != nil {
+			cb(idx, snap, dirty)
+		}
 		select {
 		case w.keySig <- struct{}{}:
 		default:
@@ -175,7 +189,11 @@ func startWorld(dir string, b *vlib.Batch, logLevel string) (*world, error) {
 	if err := modules.Start(); err != nil {
 		return nil, fmt.Errorf("modules.Start: %w", err)
 	}
-	w.keysGet = config.GetAsStringArray(api.CfgAPIKeys, []string{})
+	// an unrelated setting that an admin may change at any time (used by the churn scenario)
+	if err := config.Register(&config.Option{Name: "Verif Noise", Key: noiseOptionKey, Description: "unrelated setting changed concurrently by the harness",
+		OptType: config.OptTypeInt, DefaultValue: 0, ExpertiseLevel: config.ExpertiseLevelDeveloper, ReleaseLevel: config.ReleaseLevelStable}); err != nil {
+		return nil, fmt.Errorf("register noise option: %w", err)
+	}
 	w.handler = api.VerifMainHandler()
 	w.dbi = database.NewInterface(&database.Options{Local: true, Internal: true})
 	return w, nil
@@ -351,7 +369,14 @@ func (w *world) obsFor(r *http.Request) *obs {
 }
 
 func (w *world) recordInvoke(r *http.Request, kind string) {
-	ar := api.GetAPIRequest(r)
+	var tok *api.AuthToken
+	if ar := api.GetAPIRequest(r); ar != nil {
+		tok = ar.AuthToken
+	}
+	w.recordInvokeTok(r, kind, tok)
+}
+
+func (w *world) recordInvokeTok(r *http.Request, kind string, tok *api.AuthToken) {
 	o := w.obsFor(r)
 	if o == nil {
 		return
@@ -360,22 +385,24 @@ func (w *world) recordInvoke(r *http.Request, kind string) {
 	defer w.mu.Unlock()
 	o.Invoked++
 	o.Kind = kind
-	o.SeenMethod = r.Method
-	if o.AuthCalled > 0 && o.Invoked == 1 {
-		o.AuthFirst = true
+	if r != nil {
+		o.SeenMethod = r.Method
 	}
-	if ar == nil || ar.AuthToken == nil {
+	if tok == nil {
 		o.TokNil = true
 	} else {
-		o.Tok = &mtoken{R: mperm(ar.AuthToken.Read), W: mperm(ar.AuthToken.Write)}
+		o.Tok = &mtoken{R: mperm(tok.Read), W: mperm(tok.Write)}
 	}
 }
 
+// recordInvokeAR is the probe body of the Endpoint function types: they receive the
+// api.Request (with its AuthToken) directly.
 func (w *world) recordInvokeAR(ar *api.Request, kind string) {
 	if ar == nil {
+		w.recordInvokeTok(nil, kind, nil)
 		return
 	}
-	w.recordInvoke(ar.Request, kind)
+	w.recordInvokeTok(ar.Request, kind, ar.AuthToken)
 }
 
 // authenticator is the AuthenticatorFunc registered with portbase; the request header
@@ -410,15 +437,15 @@ func (w *world) authenticator(r *http.Request, _ *http.Server) (*api.AuthToken, 
 
 // reqSpec is one request as the harness sends it.
 type reqSpec struct {
-	Via    string `json:"via"` // "handler" (httptest-style through the main handler), "bridge", "wire"
-	Method string `json:"method"`
-	ACRM   string `json:"acrm,omitempty"` // Access-Control-Request-Method
-	Origin string `json:"origin,omitempty"`
-	Host   string `json:"host"`
-	Path   string `json:"path"`
-	Authz  string `json:"authz,omitempty"`
-	Cookie string `json:"cookie,omitempty"`
-	Auth   string `json:"auth,omitempty"` // X-Verif-Auth
+	Via    string  `json:"via"` // "handler" (httptest-style through the main handler), "bridge", "wire"
+	Method string  `json:"method"`
+	ACRM   string  `json:"acrm,omitempty"` // Access-Control-Request-Method
+	Origin string  `json:"origin,omitempty"`
+	Host   string  `json:"host"`
+	Path   string  `json:"path"`
+	Authz  string  `json:"authz,omitempty"`
+	Cookie string  `json:"cookie,omitempty"`
+	Auth   string  `json:"auth,omitempty"` // X-Verif-Auth
 	Target mTarget `json:"target"`
 	// bookkeeping for signatures / coverage (chosen by the generator, not used by the model)
 	CredTag string `json:"cred_tag,omitempty"`
@@ -643,6 +670,27 @@ func (w *world) keyEvCount() int {
 	return len(w.keyEvs)
 }
 
+// listHasExpired reads the expires= parameter of configured key strings (the harness
+// wrote them itself) and reports whether one lies in the past.
+func listHasExpired(list []string, now time.Time) bool {
+	for _, k := range list {
+		i := strings.IndexByte(k, '?')
+		if i < 0 {
+			continue
+		}
+		q, err := url.ParseQuery(k[i+1:])
+		if err != nil {
+			continue
+		}
+		if e := q.Get("expires"); e != "" {
+			if t, err := time.Parse(time.RFC3339, e); err == nil && now.After(t) {
+				return true
+			}
+		}
+	}
+	return false
+}
+
 // awaitKeys waits until an api.keys.updated event at index >= since carries exactly the
 // given configured list. Returns false when the watchdog fires.
 func (w *world) awaitKeys(since int, want []string) bool {
@@ -665,6 +713,36 @@ func (w *world) awaitKeys(since int, want []string) bool {
 			return false
 		}
 	}
+}
+
+// awaitFailed decides what a missed await means: if the option holds neither what the
+// harness set nor its cleaned form, somebody else wrote it — and the only other writer is
+// portbase's own clean-up of expired keys, writing back a list computed from an older
+// configuration (a genuine defect, witnessed by the option value and the event list).
+func (w *world) awaitFailed(since int, set, final []cfgKey, what string) error {
+	cur := strings.Join(w.keysGetSafe(), "\n")
+	if cur != strings.Join(cfgStrings(set), "\n") && cur != strings.Join(cfgStrings(final), "\n") {
+		w.b.Violation("C12:key-config-overwritten:not-by-caller",
+			fmt.Sprintf("%s: the configured key list was replaced behind the caller's back: option holds %q", what, cur),
+			map[string]any{"diag": w.keyEvDiag(since, cfgStrings(set), cfgStrings(final)), "replay": tableReplay{Mode: "revoke", CredTag: "revoke"}})
+		return wedgedErr{"core/apiKeys was overwritten by a stale clean-up; the world no longer matches the model"}
+	}
+	return errInconclusive(what + " not seen within 60s; " + w.keyEvDiag(since, cfgStrings(set), cfgStrings(final)))
+}
+
+// keyEvDiag describes the update events seen since an index (for inconclusive reports).
+func (w *world) keyEvDiag(since int, set, want []string) string {
+	w.keyEvMu.Lock()
+	defer w.keyEvMu.Unlock()
+	var evs []string
+	for i := max(0, since-6); i < len(w.keyEvs); i++ {
+		evs = append(evs, fmt.Sprintf("#%d[%s]", i, strings.ReplaceAll(w.keyEvs[i], "\n", " | ")))
+	}
+	return fmt.Sprintf("set=%q want=%q events since=%v now-configured=%q", set, want, evs, w.keysGetSafe())
+}
+
+func (w *world) keysGetSafe() []string {
+	return config.GetAsStringArray(api.CfgAPIKeys, []string{})()
 }
 
 const expiryMargin = 900 * time.Millisecond
@@ -701,7 +779,10 @@ func cfgStrings(keys []cfgKey) []string {
 func (w *world) setKeys(keys []cfgKey) error {
 	since := w.keyEvCount()
 	w.elog.Rec("call", "client", "setKeys", map[string]any{"n": len(keys)})
-	if err := config.SetConfigOption(api.CfgAPIKeys, cfgStrings(keys)); err != nil {
+	if err := w.guarded("SetConfigOption(core/apiKeys)", func() error { return config.SetConfigOption(api.CfgAPIKeys, cfgStrings(keys)) }); err != nil {
+		if isStop(err) {
+			return err
+		}
 		return fmt.Errorf("SetConfigOption(apiKeys): %w", err)
 	}
 	final, _, unsure := settle(keys, time.Now())
@@ -709,7 +790,7 @@ func (w *world) setKeys(keys []cfgKey) error {
 		return errInconclusive("an API key was within the expiry margin when it was configured")
 	}
 	if !w.awaitKeys(since, cfgStrings(final)) {
-		return errInconclusive("api.keys.updated with the configured key list not seen within 60s")
+		return w.awaitFailed(since, keys, final, "api.keys.updated with the configured key list")
 	}
 	w.configured = final
 	w.model.setKeys(final)
@@ -723,7 +804,10 @@ func (w *world) setKeys(keys []cfgKey) error {
 func (w *world) setDev(on bool) error {
 	since := w.keyEvCount()
 	w.elog.Rec("call", "client", "setDev", map[string]any{"on": on})
-	if err := config.SetConfigOption(config.CfgDevModeKey, on); err != nil {
+	if err := w.guarded("SetConfigOption(core/devMode)", func() error { return config.SetConfigOption(config.CfgDevModeKey, on) }); err != nil {
+		if isStop(err) {
+			return err
+		}
 		return fmt.Errorf("SetConfigOption(devMode): %w", err)
 	}
 	final, _, unsure := settle(w.configured, time.Now())
@@ -731,7 +815,7 @@ func (w *world) setDev(on bool) error {
 		return errInconclusive("an API key was within the expiry margin during a config change")
 	}
 	if !w.awaitKeys(since, cfgStrings(final)) {
-		return errInconclusive("api.keys.updated after devMode change not seen within 60s")
+		return w.awaitFailed(since, w.configured, final, "api.keys.updated after the devMode change")
 	}
 	w.configured = final
 	w.model.setKeys(final)
@@ -742,9 +826,11 @@ func (w *world) setDev(on bool) error {
 
 type inconclusiveErr struct{ s string }
 
-func (e inconclusiveErr) Error() string  { return e.s }
-func errInconclusive(s string) error     { return inconclusiveErr{s} }
-func isInconclusive(err error) bool      { var e inconclusiveErr; return errors.As(err, &e) }
+func (e inconclusiveErr) Error() string { return e.s }
+func errInconclusive(s string) error    { return inconclusiveErr{s} }
+func isInconclusive(err error) bool     { var e inconclusiveErr; return errors.As(err, &e) }
+func isWedged(err error) bool           { var e wedgedErr; return errors.As(err, &e) }
+func isStop(err error) bool             { return isInconclusive(err) || isWedged(err) }
 
 // login obtains a session for the token (r,w) from the real code: a request carrying no
 // other credential to a handler that needs authentication makes portbase call the
